@@ -82,6 +82,13 @@ func (vc *VC) staticCall(st *State, fr *Frame, callee *ssa.Function, args, bindi
 				return
 			}
 		}
+		if callee.Name() == "init" && callee.Parent() == nil && callee.Signature.Recv() == nil && len(args) == 0 {
+			// initialiser of an imported package without contract: it
+			// only writes its own package's state
+			vc.havocAll(st)
+			cont(st, fr, T{Sort: "Tuple"})
+			return
+		}
 		if callee.Blocks != nil && vc.canInline(fr, callee) {
 			vc.inline(st, fr, callee, args, bindings, cont)
 			return
@@ -91,6 +98,11 @@ func (vc *VC) staticCall(st *State, fr *Frame, callee *ssa.Function, args, bindi
 	}
 	// external
 	name := callee.String()
+	if callee.Name() == "init" && callee.Signature.Recv() == nil && len(args) == 0 {
+		vc.havocAll(st)
+		cont(st, fr, T{Sort: "Tuple"})
+		return
+	}
 	if callee.Object() != nil && callee.Object().Pkg() != nil {
 		name = callee.Object().Pkg().Path() + "." + callee.Name()
 		if recv := callee.Signature.Recv(); recv != nil {
@@ -116,7 +128,7 @@ func (vc *VC) canInline(fr *Frame, callee *ssa.Function) bool {
 		}
 		d++
 	}
-	return d < 8
+	return d < 5
 }
 
 func (vc *VC) inline(st *State, fr *Frame, callee *ssa.Function, args, bindings []T, cont func(*State, *Frame, T)) {
